@@ -13,7 +13,8 @@ class Required(Validator):
 
     @classmethod
     def from_element(cls, element):
-        required = getattr(element, "required", None) or []
+        # Copy: extending the element's own list would change the schema.
+        required = list(getattr(element, "required", None) or [])
         properties = getattr(element, "properties", None)
         if properties:
             required += properties.required
